@@ -91,6 +91,11 @@ func (v *Verifier) buildQuery(o *Obligation, models bool) (string, []*Term) {
 	}
 	_, axioms := v.lib.prelude(asserts, o.Opaque, o.Fuel)
 	asserts = append(asserts, axioms...)
+	if len(o.Expand) > 0 {
+		for i, a := range asserts {
+			asserts[i] = v.lib.expandApps(a, o.Expand)
+		}
+	}
 	// arithmetic-aware instantiation of quantified facts at the indices the query accesses
 	if !o.Cover {
 		asserts = append(asserts, instantiateQuantifiers(asserts)...)
